@@ -9,7 +9,7 @@ import (
 
 // C01 — Bash target preserves scalar expression and control-flow semantics.
 func c01Cfg(thorough bool) gen.Cfg {
-	c := gen.Cfg{MaxStmts: 22, MaxDepth: 4, ExprDepth: 4, Panics: true, Wide: true, LoopBudget: 24, ErrSpell: true}
+	c := gen.Cfg{MaxStmts: 22, MaxDepth: 4, ExprDepth: 4, Panics: true, Wide: true, LoopBudget: 24, ErrSpell: true, BareExpr: true}
 	if thorough {
 		c.MaxStmts, c.MaxDepth, c.ExprDepth, c.LoopBudget = 50, 6, 5, 60
 	}
